@@ -46,23 +46,31 @@ class SlowSource(AudioSource):
         self.handed = []
         self.none_returns = 0
         self.closed_count = 0
+        self.inner = None  # a real AudioSource standing behind this one
 
     def is_open(self):
         return self._open
 
     def open(self):
         self._open = True
+        if self.inner is not None:
+            self.inner.open()
 
     def close(self):
         self._open = False
         self.closed_count += 1
+        if self.inner is not None:
+            self.inner.close()
 
     def read(self, size):
         if self.sched is not None:
             self.sched.yield_point("src-read")
         elif self.jitter:
             time.sleep(self.jitter[len(self.handed) % len(self.jitter)])
-        chunk = self._d[self._pos: self._pos + size * self._bps]
+        if self.inner is not None:
+            chunk = self.inner.read(size) or b""
+        else:
+            chunk = self._d[self._pos: self._pos + size * self._bps]
         if self.endless and len(chunk) < size * self._bps:
             # a live source: digital silence for ever once the recording is over
             chunk = chunk + bytes(size * self._bps - len(chunk))
@@ -150,87 +158,181 @@ class Run:
     """Everything observed in one pipeline run."""
 
 
-def run_pipeline(case, scheduled=True, stop_step=None, jitter=None, endless=False):
+def _make_source(case, data, d, sched, jitter, endless):
+    """The audio source of a pipeline: the harness source itself, or a real lazily read wav / raw
+    file behind it (every read still is a scheduling point and is logged)."""
+    rec = case["audio"]
+    sr, sw, ch = rec["sr"], rec["sw"], rec["ch"]
+    kind = case.get("src_kind", "harness")
+    if kind == "harness":
+        return SlowSource(data, sr, sw, ch, sched, jitter, endless)
+    path = os.path.join(d, "input." + ("wav" if kind == "wav_lazy" else "raw"))
+    if kind == "wav_lazy":
+        with wave.open(path, "wb") as fp:
+            fp.setframerate(sr)
+            fp.setsampwidth(sw)
+            fp.setnchannels(ch)
+            fp.writeframes(data)
+        inner = auditok.io.WaveAudioSource(path)
+    elif kind == "raw_lazy":
+        with open(path, "wb") as fp:
+            fp.write(data)
+        inner = auditok.io.RawAudioSource(path, sr, sw, ch)
+    else:
+        raise HarnessError(kind)
+    src = SlowSource(b"", sr, sw, ch, sched, jitter, endless)
+    src.inner = inner
+    src.input_path = path
+    return src
+
+
+def _build(out, case, d, sched, jitter, endless):
+    """Create source, reader, optional saver, observers and tokenizer of one pipeline in `out`."""
     rec = case["audio"]
     sr, sw, ch, B = rec["sr"], rec["sw"], rec["ch"], rec["B"]
     data, thr = audio.synth(rec)
     aw = audio.window_arg(B, sr)
-    _ctr[0] += 1
-    d = os.path.join(tmpdir(), f"pipe_{_ctr[0]}")
-    os.makedirs(d, exist_ok=True)
-    nblocks = -(-(len(data) // (sw * ch)) // B)
-    nthreads = 2 + len(case["observers"]) + (1 if case.get("saver") else 0)
-    limit = 50 * (nblocks + nblocks + nthreads) + 200 + (stop_step or 0 if scheduled else 0)
-    sched = Sched(case.get("choices", ()), step_limit=limit) if scheduled else None
-    out = Run()
     out.dir = d
     out.data, out.thr = data, thr
     out.sched = sched
+    src = _make_source(case, data, d, sched, jitter, endless)
+    reader = auditok.AudioReader(src, block_dur=aw)
+    out.src = src
+    saver = None
+    top = reader
+    out.ignore_files = {getattr(src, "input_path", None)}
+    if case.get("saver"):
+        ext = case["saver"].get("ext", ".wav")
+        out.saver_path = os.path.join(d, "stream" + ext)
+        out.saver_ext = ext
+        out.ignore_files |= {out.saver_path, out.saver_path + ".wav"}
+        saver = W.StreamSaverWorker(reader, out.saver_path, cache_size_sec=case["saver"]["cache"])
+        top = saver
+        out.wf_calls = []
+        _orig_wf = saver._wfp.writeframes
+
+        def _wf(frames, _o=_orig_wf):
+            out.wf_calls.append((len(src.handed), len(frames)))
+            return _o(frames)
+
+        saver._wfp.writeframes = _wf
+    out.saver = saver
+    proxy = ReadLogProxy(top)
+    out.proxy = proxy
+    observers = []
+    out.recs, out.regsave, out.joiner, out.printer = [], None, None, None
+    out.player, out.command = None, None
+    for kind in case["observers"]:
+        if kind == "rec":
+            o = make_rec_observer(sched, jitter)
+            out.recs.append(o)
+        elif kind == "print":
+            o = W.PrintWorker("{id} {start} {end} {duration}", "%S")
+            out.printer = o
+        elif kind == "regsave":
+            out.tmpl = os.path.join(d, case.get("tmpl", "det_{id}") + "." + case.get("ext", "wav"))
+            o = W.RegionSaverWorker(out.tmpl)
+            out.regsave = o
+        elif kind == "player":
+            out.player = FakePlayer(sched)
+            o = W.PlayerWorker(out.player)
+        elif kind == "command":
+            # one temporary wav per detection (the worker never removes them): keep them in the run dir
+            out.cmd_dir = os.path.join(d, "cmdtmp")
+            os.makedirs(out.cmd_dir, exist_ok=True)
+            out.cmd_log = os.path.join(d, "cmd.log")
+            out.ignore_files |= {out.cmd_dir, out.cmd_log}
+            o = W.CommandLineWorker("cat {file} >> " + out.cmd_log)
+            out.command = o
+        elif kind == "joiner":
+            k, frac = case.get("join_sil", [0, 0])
+            out.join_sil = (k + frac) / sr
+            jext = case.get("joiner_ext", ".wav")
+            out.joiner_path = os.path.join(d, "joined" + jext)
+            out.joiner_ext = jext
+            out.ignore_files |= {out.joiner_path, out.joiner_path + ".wav"}
+            o = W.AudioEventsJoinerWorker(out.join_sil, out.joiner_path, None, sr, sw, ch)
+            out.joiner = o
+        else:
+            raise HarnessError(kind)
+        observers.append(o)
+    tokenizer = W.TokenizerWorker(proxy, observers, energy_threshold=thr, use_channel=rec.get("uc"),
+                                  **split_kwargs(case))
+    out.tokenizer = tokenizer
+    out.observers = observers
+    out.workers = ([saver] if saver else []) + observers + [tokenizer]
+    return out
+
+
+def _start(out, case):
+    if out.saver is not None:
+        out.saver.start()
+    order = case.get("start", "start_all")
+    tokenizer, observers = out.tokenizer, out.observers
+    if order == "start_all":
+        tokenizer.start_all()
+    elif order == "tokenizer_first":
+        tokenizer.start()
+        for o in observers:
+            o.start()
+    elif order == "tokenizer_middle":
+        for o in observers[: len(observers) // 2]:
+            o.start()
+        tokenizer.start()
+        for o in observers[len(observers) // 2:]:
+            o.start()
+    else:
+        raise HarnessError(order)
+
+
+def twin_case(case):
+    """A second, independent pipeline run alongside the first one in the same process: another
+    recording, its own saver and observer.  Nothing may leak between the two."""
+    rec = dict(case["audio"])
+    rec["salt"] = rec["salt"] + 1
+    rec["pat"] = rec["pat"][::-1]
+    rec.pop("shape", None)
+    B, sr = rec["B"], rec["sr"]
+    return {"audio": rec, "win": case["win"], "saver": {"cache": 3 * B / sr, "ext": ".wav"}, "observers": ["rec"],
+            "start": "start_all"}
+
+
+def run_pipeline(case, scheduled=True, stop_step=None, jitter=None, endless=False):
+    rec = case["audio"]
+    sr, sw, ch, B = rec["sr"], rec["sw"], rec["ch"], rec["B"]
+    _ctr[0] += 1
+    d = os.path.join(tmpdir(), f"pipe_{_ctr[0]}")
+    os.makedirs(d, exist_ok=True)
+    nsamples = len(rec["pat"]) * B + rec.get("tail", [0, 0])[0]
+    nblocks = -(-nsamples // B)
+    nthreads = 2 + len(case["observers"]) + (1 if case.get("saver") else 0)
+    twin = bool(case.get("twin"))
+    if twin:
+        nthreads += 3
+        nblocks *= 2
+    limit = 50 * (nblocks + nblocks + nthreads) + 200 + (stop_step or 0 if scheduled else 0)
+    sched = Sched(case.get("choices", ()), step_limit=limit) if scheduled else None
+    out = Run()
     out.failure = None
     out.stopped = False
+    out.twin = None
+    out.export_errors = []
     stdout = io.StringIO()
     old_stdout = sys.stdout
     workers = []
     cm = sched.installed() if scheduled else contextlib.nullcontext()
     try:
         with cm:
-            src = SlowSource(data, sr, sw, ch, sched, jitter, endless)
-            reader = auditok.AudioReader(src, block_dur=aw)
-            out.src = src
-            saver = None
-            top = reader
-            if case.get("saver"):
-                out.saver_path = os.path.join(d, "stream.wav")
-                saver = W.StreamSaverWorker(reader, out.saver_path, cache_size_sec=case["saver"]["cache"])
-                top = saver
-                out.wf_calls = []
-                _orig_wf = saver._wfp.writeframes
-
-                def _wf(frames, _o=_orig_wf):
-                    out.wf_calls.append((len(src.handed), len(frames)))
-                    return _o(frames)
-
-                saver._wfp.writeframes = _wf
-                out.saver = saver
-            proxy = ReadLogProxy(top)
-            out.proxy = proxy
-            observers = []
-            out.recs, out.regsave, out.joiner, out.printer = [], None, None, None
-            out.player, out.command = None, None
-            for kind in case["observers"]:
-                if kind == "rec":
-                    o = make_rec_observer(sched, jitter)
-                    out.recs.append(o)
-                elif kind == "print":
-                    o = W.PrintWorker("{id} {start} {end} {duration}", "%S")
-                    out.printer = o
-                elif kind == "regsave":
-                    out.tmpl = os.path.join(d, case.get("tmpl", "det_{id}") + "." + case.get("ext", "wav"))
-                    o = W.RegionSaverWorker(out.tmpl)
-                    out.regsave = o
-                elif kind == "player":
-                    out.player = FakePlayer(sched)
-                    o = W.PlayerWorker(out.player)
-                elif kind == "command":
-                    # one temporary wav per detection (the worker never removes them): keep them in the run dir
-                    out.cmd_dir = os.path.join(d, "cmdtmp")
-                    os.makedirs(out.cmd_dir, exist_ok=True)
-                    out.cmd_log = os.path.join(d, "cmd.log")
-                    o = W.CommandLineWorker("cat {file} >> " + out.cmd_log)
-                    out.command = o
-                elif kind == "joiner":
-                    k, frac = case.get("join_sil", [0, 0])
-                    out.join_sil = (k + frac) / sr
-                    out.joiner_path = os.path.join(d, "joined.wav")
-                    o = W.AudioEventsJoinerWorker(out.join_sil, out.joiner_path, None, sr, sw, ch)
-                    out.joiner = o
-                else:
-                    raise HarnessError(kind)
-                observers.append(o)
-            tokenizer = W.TokenizerWorker(proxy, observers, energy_threshold=thr, use_channel=rec.get("uc"),
-                                          **split_kwargs(case))
-            out.tokenizer = tokenizer
-            workers = ([saver] if saver else []) + observers + [tokenizer]
+            _build(out, case, d, sched, jitter, endless)
+            src, tokenizer = out.src, out.tokenizer
+            workers = list(out.workers)
+            if twin:
+                d2 = os.path.join(d, "twin")
+                os.makedirs(d2, exist_ok=True)
+                out.twin = _build(Run(), twin_case(case), d2, sched, jitter, False)
+                out.twin.case = twin_case(case)
+                out.ignore_files |= {d2}
+                workers += out.twin.workers
             sys.stdout = stdout
             import resource
             import tempfile
@@ -243,23 +345,9 @@ def run_pipeline(case, scheduled=True, stop_step=None, jitter=None, endless=Fals
                 old_lim = resource.getrlimit(resource.RLIMIT_NOFILE)
                 resource.setrlimit(resource.RLIMIT_NOFILE, (min(len(os.listdir("/proc/self/fd")) + 40, old_lim[0]), old_lim[1]))
             try:
-                if saver is not None:
-                    saver.start()
-                order = case.get("start", "start_all")
-                if order == "start_all":
-                    tokenizer.start_all()
-                elif order == "tokenizer_first":
-                    tokenizer.start()
-                    for o in observers:
-                        o.start()
-                elif order == "tokenizer_middle":
-                    for o in observers[: len(observers) // 2]:
-                        o.start()
-                    tokenizer.start()
-                    for o in observers[len(observers) // 2:]:
-                        o.start()
-                else:
-                    raise HarnessError(order)
+                _start(out, case)
+                if twin:
+                    _start(out.twin, out.twin.case)
                 if stop_step is not None:
                     if scheduled:
                         sched.yield_point(
@@ -279,6 +367,14 @@ def run_pipeline(case, scheduled=True, stop_step=None, jitter=None, endless=Fals
                         threading.Thread.join(w, 60)
                         if w.is_alive():
                             raise HarnessError("free-running validation run: thread still alive after 60 s")
+                # what the command line does once the threads are gone: export the recorded stream /
+                # joined events under the name that was asked for
+                for o in [out.saver, out.joiner] + ([out.twin.saver] if twin else []):
+                    if o is not None:
+                        try:
+                            o.export_audio()
+                        except Exception as exc:  # noqa: BLE001
+                            out.export_errors.append(exc)
             except SchedAbort:
                 pass
             finally:
@@ -299,6 +395,9 @@ def run_pipeline(case, scheduled=True, stop_step=None, jitter=None, endless=Fals
     out.stdout = stdout.getvalue()
     out.thread_errors = list(sched.thread_errors) if scheduled else []
     out.workers = workers
+    if out.twin is not None:
+        out.twin.stdout = ""
+        out.twin.alive, out.twin.thread_errors, out.twin.failure = [], [], None
     return out
 
 
